@@ -190,15 +190,68 @@ Definition single_ok (F : list nat -> bool) (len : nat) : bool :=
 
 Notation scen_ok t rt s := (single_ok (follows t rt s) (List.length (model_trace s []))).
 
+(* the smaller space in which every single failure is tried (all of it would cost minutes in
+   coqchk; Engine/SkeletonDeep.v does the full flag_space x ledgers x adopt by hand):
+     install:   atomic x no-hooks x replace          on  [] , [1 uninstalled]
+     upgrade:   atomic x cleanup-on-fail x no-hooks  (max-history 2)
+     rollback:  cleanup-on-fail x no-hooks           (max-history 2, previous version)
+                                                     on  [1 superseded; 2 deployed],
+                                                         [1 deployed; 2 failed],
+                                                         [1 superseded; 2 deployed; 3 deployed]
+     uninstall: keep-history x no-hooks              on  [1 deployed], [1 uninstalled],
+                                                         [1 superseded; 2 deployed]
+   adopt = false *)
+Definition fail_flag_space (o : opk) : list flags :=
+  match o with
+  | OInstall =>
+      flat_map (fun a => flat_map (fun h => map (fun r =>
+        mkFlags a false false r 0 h false false false 0) bools) bools) bools
+  | OUpgrade =>
+      flat_map (fun a => flat_map (fun c => map (fun h =>
+        mkFlags a c false false 2 h false false false 0) bools) bools) bools
+  | ORollback =>
+      flat_map (fun c => map (fun h => mkFlags false c false false 2 h false false false 0) bools) bools
+  | OUninstall =>
+      flat_map (fun k => map (fun h => mkFlags false false k false 0 h false false false 0) bools) bools
+  end.
+
+Definition fail_ledgers (o : opk) : list (list release) :=
+  match o with
+  | OInstall => [ []; [rel 1 SUninstalled] ]
+  | OUpgrade | ORollback =>
+      [ [rel 1 SSuperseded; rel 2 SDeployed];
+        [rel 1 SDeployed; rel 2 SFailed];
+        [rel 1 SSuperseded; rel 2 SDeployed; rel 3 SDeployed] ]
+  | OUninstall =>
+      [ [rel 1 SDeployed]; [rel 1 SUninstalled]; [rel 1 SSuperseded; rel 2 SDeployed] ]
+  end.
+
+(* the ledger on which all 256 option assignments are tried *)
+Definition main_ledger (o : opk) : list release :=
+  match o with
+  | OInstall => []
+  | _ => [rel 1 SSuperseded; rel 2 SDeployed]
+  end.
+
 (* the finite checks behind the theorems of Engine/SkeletonProofs*.v (notations, so that the
    statements are syntactically nested forallb's) *)
 
-(* operation o: the options it reads, no failure and every single failure *)
-Notation check_op o t rt :=
+(* operation o, failure-free: the options it reads x ledgers x adopt *)
+Notation check_op_ok o t rt :=
   (forallb (fun fl => forallb (fun l => fb (fun ad =>
-     scen_ok t rt (mkScen o fl l ad))) ledgers) (flag_space o)).
+     follows t rt (mkScen o fl l ad) [])) ledgers) (flag_space o)).
+
+(* operation o, failure-free and every single failure, on the smaller space *)
+Notation check_op_fail o t rt :=
+  (forallb (fun fl => forallb (fun l => scen_ok t rt (mkScen o fl l false)) (fail_ledgers o))
+           (fail_flag_space o)).
 
 (* operation o: every assignment of the eight options (also the ones it does not read),
-   max-history 2, no failure *)
+   max-history 2, failure-free, on the main ledger *)
 Notation check_op_all_flags o t rt :=
-  (all_flags 2 0 (fun fl => forallb (fun l => fb (fun ad => follows t rt (mkScen o fl l ad) [])) ledgers)).
+  (all_flags 2 0 (fun fl => follows t rt (mkScen o fl (main_ledger o) false) [])).
+
+(* operation o, failure-free and every single failure, on the whole space (SkeletonDeep.v) *)
+Notation check_op_deep o t rt :=
+  (forallb (fun fl => forallb (fun l => fb (fun ad =>
+     scen_ok t rt (mkScen o fl l ad))) ledgers) (flag_space o)).
